@@ -25,7 +25,8 @@
 (* Open known findings (only when listed in `kf`):                         *)
 (*  LOG_F23  flatten_fields: a custom field named like a key the encoder       *)
 (*       writes itself is dropped.                                         *)
-(*  LOG_F26  a padding of -2147483648 makes the pattern encoder panic.         *)
+(*  LOG_F26  a padding wider than 65535 columns makes the pattern encoder   *)
+(*       panic (pad_big: the pattern contains such a directive).           *)
 (***************************************************************************)
 EXTENDS EscapeA, Json, IOUtils, TLC
 
@@ -64,7 +65,7 @@ PatRec ==
   /\ Is("pat")
   /\ IF R.res = "ok"
        THEN (R.has_m => R.verbatim) /\ UNCHANGED devs
-       ELSE Dev("LOG_F26") /\ R.pad_min /\ devs' = devs \cup {"LOG_F26"}
+       ELSE Dev("LOG_F26") /\ R.pad_big /\ devs' = devs \cup {"LOG_F26"}
   /\ UNCHANGED kf
   /\ Next1
 
